@@ -485,24 +485,47 @@ class Monitors:
             return 0, [numpy.zeros(()), numpy.zeros(D)] + ([numpy.zeros(D), numpy.zeros((D, D))] if full else []), g, funcs
         return self.bench._get('cut:' + name, part, geom, fn)
 
-    def cut_without_slivers(self, base, part, other, c):
-        """group integrals restricted to the pieces owned by base elements that are present in BOTH parts.  Reference.slice documents that a
-        mosaic may have zero or full volume: then one part keeps the whole element with a sliver of its original face relabelled as 'trimmed'
-        while the zero-volume counterpart is dropped from the other part; such pieces are not part of the shared cut."""
+    def cut_pieces(self, part, c):
+        """per piece of the group: (measure, centroid, remaining integrals..., degenerate owner?)"""
         n, vals, g, funcs = c
         if not n:
-            return vals, 0
-        both = set()
-        if len(other):
-            opar = parents(base, other, exact=True)[0]
-            ppar = parents(base, part, exact=True)[0]
-            clean_other = {int(b) for b, r in zip(opar, other.references) if not _degenerate(r)}
-            clean_part = {int(b) for b, r in zip(ppar, part.references) if not _degenerate(r)}
-            both = clean_other & clean_part   # base elements present in both parts, without degenerate (sliver) mosaics on either side
-        keep = numpy.array([int(base.transforms.index_with_tail(t)[0]) in both for t in g.transforms], dtype=bool)
+            return []
         self.res.count('integrals')
-        ev = g.integrate_elementwise(funcs, degree=self.bench.deg)
-        return [numpy.asarray(v)[keep].sum(0) for v in ev], int((~keep).sum())
+        ev = [numpy.asarray(v) for v in g.integrate_elementwise(funcs, degree=self.bench.deg)]
+        refs = part.references
+        out = []
+        for k, t in enumerate(g.transforms):
+            own = int(part.transforms.index_with_tail(t)[0])
+            a = float(ev[0][k])
+            out.append(dict(a=a, c=ev[1][k] / a if a else ev[1][k], vals=[v[k] for v in ev], degenerate=_degenerate(refs[own]), own=own))
+        return out
+
+    def cut_match(self, pos, neg, cp, cn, sc):
+        """match the pieces of the two groups by position; returns (sums over matched pieces of pos, of neg, unmatched pieces).
+        Reference.slice documents that a mosaic may have zero or full volume (binning of edge intersections): then one part keeps the whole
+        (child) element with a sliver of its original face relabelled as 'trimmed' while the zero-volume counterpart is dropped from the
+        other part.  Such unmatched pieces, owned by an element with a degenerate mosaic, are not part of the shared cut; any other unmatched
+        piece is reported."""
+        pp, pn = self.cut_pieces(pos, cp), self.cut_pieces(neg, cn)
+        tol = 1e-7 * max(1., self.bench.xmax)
+        used = set()
+        sums = [[numpy.zeros_like(numpy.asarray(v, dtype=float)) for v in cp[1]] for _ in range(2)]
+        unmatched = []
+        for p in pp:
+            best = None
+            for j, q in enumerate(pn):
+                if j not in used and numpy.abs(p['c'] - q['c']).max() <= tol and abs(p['a'] - q['a']) <= 1e-7 * max(1., p['a']):
+                    best = j
+                    break
+            if best is None:
+                unmatched.append(('pos', p))
+            else:
+                used.add(best)
+                for acc, piece in (sums[0], p), (sums[1], pn[best]):
+                    for x, v in zip(acc, piece['vals']):
+                        x += v
+        unmatched += [('neg', q) for j, q in enumerate(pn) if j not in used]
+        return sums[0], sums[1], unmatched
 
     def cut(self, base, pos, neg, label, name, geom, geom0, s):
         D = geom.shape[0]
@@ -515,16 +538,21 @@ class Monitors:
         if cp[0] or cn[0]:
             self.res.count('monitor/trim_cut_nonempty')
         sc = self.scale(s, vp[0], vn[0])
+        m = 'trimmed boundaries share the cut'
         if tolerance.compare(numpy.asarray(vp[0], dtype=float), numpy.asarray(vn[0], dtype=float), scale=sc, check_kind=False)[0] != tolerance.PASS:
             try:
-                vp, np_ = self.cut_without_slivers(base, pos, neg, cp)
-                vn, nn_ = self.cut_without_slivers(base, neg, pos, cn)
-                if np_ + nn_:
-                    self.res.count('cut_sliver_pieces_excluded', np_ + nn_)
-                    self.res.count('trims_with_cut_slivers')
-            except (Unavailable, ValueError):
-                pass
-        m = 'trimmed boundaries share the cut'
+                vp, vn, unmatched = self.cut_match(pos, neg, cp, cn, sc)
+            except (Unavailable, ValueError, AttributeError) as e:
+                unmatched = None
+            if unmatched:
+                self.res.count('trims_with_cut_slivers')
+                self.res.count('cut_sliver_pieces', len(unmatched))
+                odd = [(side, p) for side, p in unmatched if not p['degenerate']]
+                if odd:
+                    side, p = odd[0]
+                    self.fail(m, f'group {name!r}: {len(odd)} piece(s) of one part have no counterpart in the other ({label}) and do not belong to an element with a '
+                                 f'degenerate mosaic, e.g. in {side}: measure {p["a"]:.6g} at {numpy.round(p["c"], 5).tolist()} (element {p["own"]})')
+                    return
         self.cmp(m, f'measure of group {name!r}: pos vs {label}', vp[0], vn[0], sc)
         if full:
             self.cmp(m, f'int n dS over group {name!r}: pos vs -({label})', vp[2], -vn[2], sc)
@@ -1124,7 +1152,25 @@ def repro_retrimmed_3d_mosaic():
     return False, 'retrimmed 3-D element is partitioned exactly'
 
 
-REPRODUCERS = {KNOWN: repro_refined_trimmed_simplex, KNOWN2: repro_retrimmed_3d_mosaic}
+def repro_degenerate_mosaic_child():
+    """perturbed triangle mesh of [0,3]^2, one trim (plane x + y/2 = 2.5, maxrefine=1, ndivisions=3), complement base - pos: one refined
+    child is cut so close to its vertex that the binning leaves a full-volume mosaic in pos and a zero-volume mosaic in the complement,
+    whose kept edge sliver stays in the parent's edge while its closing faces are dropped: the boundary of the complement is not closed."""
+    history = dict(version=1, ndims=2, mesh=dict(kind='simplex', ndims=2, n=3, seed=1836087547, amp=0.25), geom=dict(kind='identity'),
+                   ops=[dict(op='trim', levelset=dict(kind='plane', normal=[1.0, 0.5], offset=2.5, tag='repro'), maxrefine=1, ndivisions=3, name='trim1', side='-')])
+    r = Result()
+    idx, probs, mech = evaluate(history, r)
+    if r.counters.get('monitor_errors') or r.counters.get('mesh_construction_failed') or not r.counters.get('monitor/closure_normal'):
+        return None, f'monitors did not run on the reproducer: {r.notes[:1]}'
+    closure = [d for m, d in probs if m == 'boundary closure']
+    if closure and mech == KNOWN3:
+        return True, 'triangles.trim(x+y/2-2.5, maxrefine=1, ndivisions=3), complement: ' + closure[0][:330]
+    if probs:
+        return None, 'reproducer fails differently: ' + '; '.join(f'{m}: {d}' for m, d in probs)[:400]
+    return False, 'complement of the trimmed triangle mesh is closed'
+
+
+REPRODUCERS = {KNOWN: repro_refined_trimmed_simplex, KNOWN2: repro_retrimmed_3d_mosaic, KNOWN3: repro_degenerate_mosaic_child}
 
 
 # ------------------------------------------------------------------ finalize
